@@ -6,10 +6,11 @@ from vlib import repo, gens, pairs
 from vlib.common import explore, khash, Recorder
 from vlib.meshreal import Live, apply_op
 from vlib.checks.c01 import operator
+from vlib.geo import geo as get_geo
 
 ID = 'C20'
 LEVEL = 'exploration'
-RULE = ('closed curve x generated (graded) history with aspect guard (<= 40 elements quick, <= 150 thorough) x data '
+RULE = ('closed curve (the four shipped ones and three line/arc curves) x generated (graded) history with aspect guard (<= 40 elements quick, <= 150 thorough) x data '
         'configuration (Dirichlet, MildSingular, initial datum 1 on polygons, and both together) x density (Galerkin '
         'solution, random vector, constant) x serial / pool with 2..4 workers. Oracle: independent recomputation on a '
         'replayed copy of the mesh refined by real bisection (uniform_refine), grandchildren matched to their coarse '
@@ -31,7 +32,7 @@ def shards(tier):
 def cases(max_ops):
     return st.fixed_dictionaries({
         'kind': st.sampled_from(['hh2', 'hh2', 'hier', 'prolong', 'vanish']),
-        'spec': pairs.pair_specs(curves=('UnitSquare', 'PiSquare', 'LShape', 'Circle')),
+        'spec': pairs.pair_specs(curves=('UnitSquare', 'PiSquare', 'LShape', 'Circle', 'Stadium1', 'Dee', 'Stadium')),
         'ops': gens.graded_histories(max_ops=max_ops, allow=('t', 'x', 'tx')),
         'more': gens.histories(max_ops=12, allow=('t', 'x', 'tx')),
         'data': st.sampled_from(['dirichlet', 'mild', 'initial', 'both', 'both']),
@@ -162,7 +163,7 @@ def body(case, rec, cap):
         if wants_M0 and N > 20:
             rec.exclude('initial_data_case_too_large')
             return
-        exact = case['exact'] and dom != 'Circle'
+        exact = case['exact'] and get_geo(dom).polygon
         SL = operator(live, exact)
         M0 = make_M0(live, dom) if wants_M0 else None
 
